@@ -169,6 +169,35 @@ func canon(val any) string {
 	return fmt.Sprintf("?%T", val)
 }
 
+// AllIn reports whether every byte of s is in the class spec (regex-class
+// syntax without brackets: "0-9a-zA-Z._", a trailing '-' is literal). Under
+// the executor it is ONE symbolic Boolean (no forking).
+func AllIn(s string, spec string) bool {
+	for i := 0; i < len(s); i++ {
+		if !ByteIn(s[i], spec) {
+			return false
+		}
+	}
+	return true
+}
+
+// ByteIn is AllIn for one byte.
+func ByteIn(c byte, spec string) bool {
+	for i := 0; i < len(spec); i++ {
+		if i+2 < len(spec) && spec[i+1] == '-' {
+			if c >= spec[i] && c <= spec[i+2] {
+				return true
+			}
+			i += 2
+			continue
+		}
+		if c == spec[i] {
+			return true
+		}
+	}
+	return false
+}
+
 func PermuteMaps(on bool) {}
 
 // Fresh returns an unconstrained byte (symbolic) / 0 (native).
